@@ -99,13 +99,7 @@ fn encrypt(kit: &Kit, mode: Mode, p: &Plaintext, rng: &mut Rng) -> Result<(Ciphe
 }
 
 /// a destination that already holds something else (different size/level), as the API allows
-fn dirty_ct(kit: &Kit) -> Ciphertext {
-    let mut c = Ciphertext::new();
-    let last = kit.levels.last().unwrap();
-    c.resize(&kit.ctx, last.parms_id(), 3);
-    for x in c.data_mut().iter_mut() { *x = 1; }
-    c
-}
+fn dirty_ct(kit: &Kit) -> Ciphertext { crate::prog::dirty(kit) }
 
 fn encrypt_zero_at(kit: &Kit, mode: Mode, id: &ParmsID, rng: &mut Rng) -> Result<(Ciphertext, bool), Panicked> {
     lib(|| {
